@@ -130,7 +130,7 @@ func genC06(t *rapid.T) C06Case {
 	if len(a.Audiences) >= 1 && rapid.IntRange(0, 3).Draw(t, "joinedRestriction") == 0 {
 		src := a.Audiences[rapid.IntRange(0, len(a.Audiences)-1).Draw(t, "joinOf")]
 		if len(src) >= 2 {
-			sep := rapid.SampledFrom([]string{",", " ", ";", "|", "", "\n", ", ", "\x1f"}).Draw(t, "joinSep")
+			sep := rapid.SampledFrom([]string{",", " ", ";", "|", "", "\n", ", ", "\t"}).Draw(t, "joinSep")
 			joined := strings.Join(src, sep)
 			if rapid.Bool().Draw(t, "joinTrailingSep") {
 				joined += sep
